@@ -816,3 +816,77 @@ Lemma early_ctrl_c_fixed :
     [OForward; OTerm hdr_download; OHide; OStart false;
      OCancelServer; OArm TCleanup; OMsg MStopped; OInput false; OServer Consts.zmodem_cleanup_enter].
 Proof. vm_compute. reflexivity. Qed.
+
+(* ---- the helper's exit: whatever its status, the remote side is cancelled ---- *)
+
+Definition strip_msg (os : list output) : list output :=
+  filter (fun o => match o with OMsg _ => false | _ => true end) os.
+
+Definition forget_code (z : zstate) : zstate :=
+  match hp z with HExit _ => set_hp (HExit 0) z | _ => z end.
+
+Lemma exit_any_status : forall fixed f c, hp (zs f) = HRun ->
+  In OCancelServer (snd (step_gen fixed f (EvHelperExit c))) /\
+  stopped (zs (fst (step_gen fixed f (EvHelperExit c)))) = true /\
+  tcu (zs (fst (step_gen fixed f (EvHelperExit c)))) = true /\
+  forall c', strip_msg (snd (step_gen fixed f (EvHelperExit c))) = strip_msg (snd (step_gen fixed f (EvHelperExit c'))) /\
+             forget_code (zs (fst (step_gen fixed f (EvHelperExit c)))) = forget_code (zs (fst (step_gen fixed f (EvHelperExit c')))) /\
+             ptr (fst (step_gen fixed f (EvHelperExit c))) = ptr (fst (step_gen fixed f (EvHelperExit c'))).
+Proof.
+  intros fixed [z p] c Hh. destruct z as [u c1 s1 e1 st cl h rd lp t1 t2 t3 ks gb]. zsimpl. subst h.
+  unf; zsimpl. destruct u; zsimpl; cbn [In]; (split; [auto 8|]); (split; [reflexivity|]); (split; [reflexivity|]);
+    intros c'; unfold strip_msg, forget_code; cbn [filter app]; zsimpl; repeat split.
+Qed.
+
+Lemma cancel_stops_remote : forall os, In OCancelServer os -> remote_waiting os = false.
+Proof.
+  intros os H. unfold remote_waiting. apply Bool.negb_false_iff. apply existsb_exists.
+  exists OCancelServer. split; [exact H | reflexivity].
+Qed.
+
+Lemma quiet_no_start : forall fixed qs f, Forall quiet qs -> has_start (snd (run_gen fixed f qs)) = false.
+Proof.
+  intros fixed. induction qs as [|e qs IH]; intros f Hq; [reflexivity|].
+  inversion Hq as [|? ? Hq1 Hq2]; subst. cbn [run_gen].
+  pose proof (start_only_on_header fixed f e) as H1.
+  destruct (step_gen fixed f e) as [f1 o1]. specialize (IH f1 Hq2).
+  destruct (run_gen fixed f1 qs) as [f2 o2]. cbn [snd] in *.
+  rewrite has_start_app, IH, Bool.orb_false_r.
+  destruct (has_start o1) eqn:Hs; [|reflexivity]. exfalso.
+  unfold has_start in Hs. apply existsb_exists in Hs as (o & Hin & Ho).
+  destruct o; try discriminate. destruct (H1 up Hin) as (buf & He & _). subst e. exact Hq1.
+Qed.
+
+(* the helper exits, with ANY status, in ANY state in which it runs; then, however many
+   other events of a quiet server follow, the cleanup timer fires: the remote program has
+   been sent the cancel sequence (so a remote that repeats its header until cancelled is
+   silent), no new session has started, and the wrapper is in pass-through *)
+Lemma exit_returns_for_good : forall f c qs, hp (zs f) = HRun -> Forall quiet qs ->
+  let r := run f (EvHelperExit c :: qs ++ [EvCleanupFire]) in
+  remote_waiting (snd r) = false /\ has_start (snd r) = false /\ passthrough (fst r).
+Proof.
+  intros f c qs Hh Hq. cbv zeta. unfold run. cbn [run_gen].
+  destruct (exit_any_status true f c Hh) as (Hc & _).
+  pose proof (exit_arms f c Hh) as Hw. unfold step in Hw.
+  destruct (step_gen true f (EvHelperExit c)) as [f1 o1] eqn:E1. cbn [fst snd] in *.
+  rewrite run_app.
+  pose proof (quiet_run_keeps qs f1 Hq Hw) as Hw2. pose proof (quiet_no_start true qs f1 Hq) as Hn2.
+  unfold run in Hw2. destruct (run_gen true f1 qs) as [f2 o2]. cbn [fst snd] in *.
+  cbn [run_gen]. pose proof (fire_cleans f2 Hw2) as [Hs3 Hc3]. unfold step in Hs3, Hc3.
+  pose proof (start_only_on_header true f2 EvCleanupFire) as Hn3.
+  destruct (step_gen true f2 EvCleanupFire) as [f3 o3]. cbn [fst snd] in *.
+  split; [apply cancel_stops_remote; apply in_app_iff; left; exact Hc|].
+  split.
+  - rewrite ?app_nil_r, !has_start_app, Hn2.
+    assert (H1 : has_start o1 = false).
+    { destruct (has_start o1) eqn:Hs; [|reflexivity]. exfalso. unfold has_start in Hs.
+      apply existsb_exists in Hs as (o & Hin & Ho). destruct o; try discriminate.
+      pose proof (start_only_on_header true f (EvHelperExit c) up) as H0. rewrite E1 in H0.
+      destruct (H0 Hin) as (buf & He & _). discriminate. }
+    assert (H3 : has_start o3 = false).
+    { destruct (has_start o3) eqn:Hs; [|reflexivity]. exfalso. unfold has_start in Hs.
+      apply existsb_exists in Hs as (o & Hin & Ho). destruct o; try discriminate.
+      destruct (Hn3 up Hin) as (buf & He & _). discriminate. }
+    rewrite H1, H3. reflexivity.
+  - right. split; assumption.
+Qed.
